@@ -103,6 +103,7 @@ def main():
         mod.worker_init()
     signal.signal(signal.SIGPROF, _on_prof)
     faulthandler.register(signal.SIGUSR1, all_threads=True)
+    faulthandler.enable(file=sys.stderr, all_threads=True)  # a fatal signal leaves the Python stacks for the classifiers
     cpu_budget = float(os.environ.get("VF_CPU_BUDGET", getattr(mod, "CPU_BUDGET", 30.0)))
     wall_dump = float(getattr(mod, "CASE_TIMEOUT", 120.0)) * 0.9
     for line in sys.stdin:
